@@ -219,3 +219,41 @@ def check_sign_readers(ctx, res, config="all"):
         else:
             res.ok("R9-readset", desc, {"reads": need})
     res.clause("R9: sign-dependent exporters/queries of BigInt (to_str_radix, 5 formatters, bit, set_bit, shr_round_down, byte exporters) read both sign and magnitude")
+
+
+def _field_writes(b):
+    """fields of the receiver (param 1) assigned in release-live code"""
+    out = set()
+    live = release_live_blocks(b) & b.live_blocks()
+    fl = core.Flow(b)
+    for x in live:
+        for s in b.blocks[x]["stmts"]:
+            if s["k"] != "assign":
+                continue
+            pl = s["place"]
+            fs = [e.get("name") for e in pl["proj"] if e["k"] == "field" and e.get("name")]
+            if not fs:
+                continue
+            if any(r[0] == "param" and r[1] == 1 for r in fl.roots_of_local(pl["local"])):
+                out.add(fs[0])
+    return out
+
+
+def check_iterator_write_sets(ctx, res, config="all"):
+    """U32Digits (64-bit digits): `next` and `next_back` each update all three cursor fields - when the two ends meet inside one
+    native digit the *other* end's flag has to be reset, otherwise len() is computed from an inconsistent state"""
+    facts = ctx.facts(config)
+    need = {"data", "next_is_lo", "last_hi_is_zero"}
+    n = 0
+    for b in facts.bodies:
+        if b.kind == "AssocFn" and b.self_ty and b.self_ty.startswith("biguint::iter::U32Digits") and b.name in ("next", "next_back"):
+            n += 1
+            w = _field_writes(b)
+            key = "biguint::iter::U32Digits::%s" % b.name
+            if need <= w:
+                res.ok("R9-writeset", key, {"writes": sorted(need)})
+            else:
+                res.fail(Finding("R9-writeset", key, "U32Digits::%s never updates cursor field(s) %s: after the two ends meet inside one digit the iterator state is inconsistent (len() underflows / a digit is yielded twice)" % (b.name, sorted(need - w)), b))
+    if n < 2:
+        res.fail(Finding("R9-anchor-lost", "U32Digits-writers", "next/next_back of U32Digits not found", file="src/biguint/iter.rs", line=0))
+    res.clause("R9: U32Digits::next and ::next_back both update data, next_is_lo and last_hi_is_zero")
